@@ -567,3 +567,29 @@ class GhostDev(ExtObject):
             self.tx = ops.bytes_concat(self.tx, args[0]) if ops.has_sym(self.tx) or len(self.tx) else as_sbytes(args[0])
             return None
         raise Unsupported(f"device.{name}")
+
+
+# ---- cryptography.hazmat.primitives.asymmetric.rsa.RSAPublicNumbers: a plain record (e, n) --------------------------------------------
+try:
+    from cryptography.hazmat.primitives.asymmetric import rsa as _rsa
+except ImportError:  # pragma: no cover
+    _rsa = None
+
+
+class _RsaPublicNumbers(ExtObject):
+    def __init__(self, e: Any, n: Any):
+        self.e, self.n = e, n
+
+    def vf_attr(self, it: Any, name: str) -> Any:
+        if name in ("e", "n"):
+            return getattr(self, name)
+        raise Unsupported(f"RSAPublicNumbers.{name}")
+
+
+if _rsa is not None:
+    @model(_rsa.RSAPublicNumbers)
+    def _m_rsa_public_numbers(it: Any, args: list, kwargs: dict, f: Any) -> Any:
+        _use(it, "rsa.RSAPublicNumbers(record)")
+        e = kwargs.get("e", args[0] if args else None)
+        n = kwargs.get("n", args[1] if len(args) > 1 else None)
+        return _RsaPublicNumbers(e, n)
